@@ -49,6 +49,12 @@ THEOREMS = {
     "C13_mergemin_stop": "MergeMin, every accepted heappop answer: in the output any two distinct unobserved plates of one sample together exceed min_size; if that already holds of the input nothing is merged",
     "C13_topbottom_halves": "MergeTopBottom: one iteration takes the number of plates of the sample from n to ceil(n/2), leaves other samples' plates alone, and breaks only at n <= 1",
     "C13_topbottom_counts": "MergeTopBottom end to end: every sample's number of unobserved plates is halved (rounding up) n_iterations times",
+    'C13_model_is_source_plate_merge': "primitive `b.merge(a)` -> Retro.merge: the translated Plate.merge on two plates of one screen object (parent's length, non-empty union) succeeds, its result's selection vector and the parent's rows afterwards are the two components of Retro.merge, identity / sample ids / treatment ids / arity / control name are untouched, the plate ids are fresh again, the result is a well-formed view of the new parent",
+    'C13_model_is_source_plates': "primitive `s.plates` -> plates_of: with fresh plate ids the translated Screen.plates lists one view per sorted distinct plate NAME, with plates_of's selection vectors, all views of that screen object",
+    'C13_model_is_source_plate_size_and_order': "primitive `p.size` -> plate_size; translated Plate.__lt__ = comparison of the numbers of selected rows; pop's minimality test on a recorded heappop answer <=> no plate in the heap is smaller in the order __lt__ defines",
+    'C13_model_is_source_unique_sample_ids': 'primitive `s.unique_sample_ids` -> sample_names: with fresh sample ids the translated property is 0..k-1 (k = number of distinct names, also n_unique_samples) and id j selects exactly the rows of the j-th sorted name',
+    'C13_model_is_source_plate_unique_sample_ids': "primitive `p.unique_sample_ids` -> plate_unique_samples: the translated property on a plate is the list of ranks (among the screen's sorted sample names) of plate_unique_samples",
+    'C13_constructed_screens_have_fresh_ids': 'every screen the constructor returns has fresh plate ids, and fresh sample ids when no sample mapping is passed',
 }
 ASSUMPTIONS = [
     "numpy permutation / choice contracts are hypotheses of the shape theorems (checked on every recorded answer by the harness); heappop's contract (returns a smallest item) and SparseCover's state-dependent choice contract are checked by the model itself (Err tag 93 / 94)",
@@ -119,7 +125,18 @@ EXPLANATION = ("Models shared with C11 (Model/Retro.v, Pairwise.v, RetroInit.v);
                "a.combine(b); screen.treatment_ids (None = control sentinel), np.isin / np.in1d(..).reshape on it, np.any / np.all "
                "(axis=1), a[idx].flatten(), set(..) / list(..) / set.update on ids (a set = any list of its elements), np.setdiff1d "
                "(membership and emptiness only), v.sum(), screen.observations.copy(), screen.is_observed, screen.treatment_arity, "
-               "np.unique / np.concatenate on ids, (a == SENTINEL).reshape(a.shape).")
+               "np.unique / np.concatenate on ids, (a == SENTINEL).reshape(a.shape)."
+               '  PRIMITIVES AS THEOREMS: the meanings the configurations of this property give to the data.py helpers are no longer '
+               "only trusted - Proofs/C13SourceHelpers.v proves, per primitive, that the helper's own translation (in the Views "
+               'vocabulary, where a Screen object carries its id arrays), read through the representation `Retro screen = rows of the '
+               'Views screen, Retro plate = selection vector of the view`, is that meaning; side conditions are those of reachable '
+               'calls (screen_wf / screen_valid of constructed screens, view_ok of constructed views, plate_ids_fresh / '
+               "sample_ids_fresh = `the id array is the encoder's answer on the current names without a mapping`, true of every screen "
+               'built without mappings and re-established for the plate ids by every merge).  Linked here: Plate.merge, Screen.plates, '
+               "plate.size, Plate.__lt__ / heappop's contract, unique_sample_ids / n_unique_samples on a screen and on a plate.  What "
+               "the helper translations themselves trust is listed in C14's explanation (HELPER LINKS).  Left as primitives: numpy / "
+               'heapq / Generator calls, `Plate(screen, v)`, `s.sample_mapping[0]`, `s.sample_names != n`, the Screen(...) constructor '
+               'templates (construct = the plate-uniform check; the constructor is linked by C01 / C12). ')
 
 SIGNATURES = ("sample-segregating-lumps-small-samples", "nplate-stale-sample-ids")
 
